@@ -314,6 +314,15 @@ Section with_tables.
     pose proof (inv_full _ _ _ _ _ I m i Hi) as Hin. by apply elem_of_nil in Hin; auto.
   Qed.
 
+  Corollary remove_unloaded_exact C inp nodes ord C' removed :
+    closed (c_g C) → ¬ has_cycle (c_g C) → bbin_sinks (c_g C) → sources_undriven (c_g C) →
+    remove_unloaded_with T C inp nodes ord = Ok (C', removed) →
+    ∀ n, n ∈ removed ↔ ∃ i, c_g C !! n = Some i ∧ removable (c_g C) inp n i.
+  Proof.
+    intros Hc Hac Hs Hu Hr n. destruct (remove_unloaded_spec _ _ _ _ _ _ Hc Hs Hr) as (_ & Hsound & Hcompl & _).
+    split; [apply Hsound|]. intros (i & Hi & Hrm). by eapply Hcompl.
+  Qed.
+
   Theorem remove_unloaded_total C inp nodes ord :
     bbin_sinks (c_g C) → map_Forall (λ _ i, n_ty i ≠ NoTy) (c_g C) →
     order_ok nodes (dom (c_g C)) = true → (∀ n, n ∈ dom (c_g C) → order_ok (ord n) (fanin (c_g C) n) = true) →
